@@ -148,6 +148,24 @@ fn set_tx<EXT, DB: Database>(evm: &mut Evm<'_, EXT, DB>, tx: &Value, sc: &Value,
     if prio >= 0 {
         t.gas_priority_fee = Some(U256::from(prio as u64));
     }
+    let blobs = tx["blobs"].as_u64().unwrap_or(0);
+    if blobs > 0 {
+        let mut h = [0u8; 32];
+        h[0] = 1;
+        h[31] = 0x77;
+        t.blob_hashes = (0..blobs).map(|_| B256::from(h)).collect();
+        t.max_fee_per_blob_gas = Some(U256::from(2u64));
+    }
+    let auths = tx["auths"].as_array().cloned().unwrap_or_default();
+    if !auths.is_empty() {
+        use revm::primitives::{Authorization, AuthorizationList, RecoveredAuthority, RecoveredAuthorization};
+        t.authorization_list = Some(AuthorizationList::Recovered(auths.iter().map(|a| {
+            let to = a["to"].as_u64().unwrap();
+            RecoveredAuthorization::new_unchecked(
+                Authorization { chain_id: U256::from(1u64), address: if to == 0 { Address::ZERO } else { names.addr(to) }, nonce: a["nonce"].as_u64().unwrap() },
+                RecoveredAuthority::Valid(names.addr(a["authority"].as_u64().unwrap())))
+        }).collect()));
+    }
     t.access_list = tx["al"].as_array().cloned().unwrap_or_default().iter().map(|e| AccessListItem {
         address: names.addr(e["addr"].as_u64().unwrap()),
         storage_keys: e["keys"].as_array().unwrap().iter().map(|k| B256::from(U256::from(k.as_u64().unwrap()))).collect(),
@@ -365,6 +383,12 @@ fn main() {
         };
         // expectation in the same shape
         let mut exp_res = sc["res"].clone();
+        // ExecutionResult reports the refund only for successful transactions
+        for r in exp_res.as_array_mut().unwrap() {
+            if r["status"] != json!("ok") {
+                r["refunded"] = json!(0);
+            }
+        }
         if o.insp != "rec" {
             for r in exp_res.as_array_mut().unwrap() {
                 r.as_object_mut().unwrap().remove("events");
